@@ -13,7 +13,7 @@
 (*   EndCount, Merge(j)   count_mat.update(result of job j), per-job prune(JobK, JobMV) first        *)
 (*   SetItem, PruneM, Delete, FromCounts   operations of the class on the merged matrix             *)
 (* P-level (MethylationMatrixP): Counted / Conserved / SplitIndependent / SitesCoverCells / Prune.   *)
-(* Variant: "design" | named deviation | "impl" (= all D4xx deviations found in the code):           *)
+(* Variant: "design" | named deviation | "impl" (D402, still in the code) | "impl_asfound" (all D4xx):  *)
 (*   dyad_after_bounds (D402) dyad mode moves a reverse-strand CpG call to position+1 AFTER the job's *)
 (*                            bounds check: a call on the last position of a job lands in a bin of    *)
 (*                            the next job and one of the two cells is overwritten by update()        *)
@@ -32,7 +32,10 @@ K1 == 1
 K2 == 2
 PostKsAll == {-1, 0, 1, 2}
 PostKsPlain == {0, 1, 2}
-Dev(d) == Variant = d \/ (Variant = "impl" /\ d \in {"dyad_after_bounds", "setitem_no_site", "ctor_no_sites", "prune_none"})
+(* "impl" = the deviation still in the code (D402, known); "impl_asfound" = all four found on 2026-09-28 (D400, D401, D403  *)
+(* have been repaired since: their controls stay, a regression is a VIOLATION)                                         *)
+Dev(d) == Variant = d \/ (Variant = "impl" /\ d = "dyad_after_bounds")
+          \/ (Variant = "impl_asfound" /\ d \in {"dyad_after_bounds", "setitem_no_site", "ctor_no_sites", "prune_none"})
 DevSet == { d \in {"setitem_no_site", "ctor_no_sites", "prune_none"} : Dev(d) }
 Min2(a, b) == IF a < b THEN a ELSE b
 LocOf(cp) == <<1, BinSize * (cp \div BinSize), Min2(BinSize * ((cp \div BinSize) + 1), ContigLen)>>
